@@ -1050,6 +1050,16 @@ func oracles08(r *Run, t *c08Tree, flat []flatRes, bo buildOut) {
 			continue
 		}
 		ios = append(ios, io{fr, in.YNode(), out.YNode()})
+		var dirty []string
+		r.Count("oracle", "parse_clean")
+		if scalarsWithContent(in.YNode(), "", &dirty); len(dirty) > 0 {
+			report("parse_clean", "C08/parse_clean", "a parsed document has a scalar node with children: "+strings.Join(dirty, ", "))
+			continue
+		}
+		r.Count("oracle", "no_hidden_content")
+		if scalarsWithContent(out.YNode(), "", &dirty); len(dirty) > 0 {
+			report("no_hidden_content", c08HiddenClass, fmt.Sprintf("%s %s: after the build a scalar node carries hidden child nodes: %s", fr.Res.Kind, fr.Res.Name, strings.Join(dirty, ", ")))
+		}
 	}
 	// Only one failure shape of own_selector / selects_preserved is a listed finding (documented behaviour): the
 	// broken key was written by a labels entry WITHOUT includeSelectors although a selector uses it - either the
@@ -1257,6 +1267,34 @@ func genFilterCase(rng *Rng) c08FilterCase {
 	return c
 }
 
+// scalarsWithContent lists the scalar nodes below n that carry child nodes. go-yaml never produces such a
+// node (obligation parse_clean, checked on every parsed input); the encoder ignores the children, so they are
+// hidden state: invisible in the output, alive in memory, surfacing when the node is retagged as a mapping.
+// This is the reason for the model's domain restriction (uniform_create): Yaml/Node.v scalars have no children,
+// i.e. the abstraction yaml.Node -> node is lossless exactly on nodes for which this list is empty.
+func scalarsWithContent(n *kyaml.Node, path string, acc *[]string) {
+	if n == nil {
+		return
+	}
+	switch n.Kind {
+	case kyaml.ScalarNode:
+		if len(n.Content) > 0 {
+			*acc = append(*acc, fmt.Sprintf("%s (tag %s, %d hidden nodes)", path, n.Tag, len(n.Content)))
+		}
+	case kyaml.MappingNode:
+		for i := 0; i+1 < len(n.Content); i += 2 {
+			scalarsWithContent(n.Content[i], path+"/"+n.Content[i].Value+"#key", acc)
+			scalarsWithContent(n.Content[i+1], path+"/"+n.Content[i].Value, acc)
+		}
+	default:
+		for i, c := range n.Content {
+			scalarsWithContent(c, fmt.Sprintf("%s/%d", path, i), acc)
+		}
+	}
+}
+
+const c08HiddenClass = "C08/no_hidden_content/entries-in-null-scalar"
+
 func toFsSlice(l []c08fsSpec) types.FsSlice {
 	out := types.FsSlice{}
 	for _, f := range l {
@@ -1301,7 +1339,20 @@ func runFilterCase(r *Run, c c08FilterCase) {
 		r.Meta.Skipped++
 		return
 	}
+	r.Count("oracle", "parse_clean")
+	var dirty []string
+	if scalarsWithContent(orig.YNode(), "", &dirty); len(dirty) > 0 {
+		r.Violation(OracleViolation{Law: "parse_clean", Class: "C08/parse_clean", Detail: "a parsed document has a scalar node with children: " + strings.Join(dirty, ", "),
+			Replay: map[string]interface{}{"filter": c}})
+	}
 	cls, doc, _ := execFilter(c)
+	if cls == ClsOk {
+		r.Count("oracle", "no_hidden_content")
+		if scalarsWithContent(doc.YNode(), "", &dirty); len(dirty) > 0 {
+			r.Violation(OracleViolation{Law: "no_hidden_content", Class: c08HiddenClass,
+				Detail: "after the filter a scalar node carries hidden child nodes: " + strings.Join(dirty, ", "), Replay: map[string]interface{}{"filter": c}})
+		}
+	}
 	r.Count("filter_class", cls)
 	r.Count("filter_keys", fmt.Sprint(len(c.Labels)))
 	after := `(Scalar TNone SPlain "")`
@@ -1656,7 +1707,15 @@ func replayC08(path string) (bool, string, error) {
 	}
 	if wrap.Filter != nil {
 		cls, doc, msg := execFilter(*wrap.Filter)
-		return cls == ClsPanic, fmt.Sprintf("class=%s msg=%q after=%s", cls, msg, docString(doc)), nil
+		var dirty []string
+		if cls == ClsOk {
+			scalarsWithContent(doc.YNode(), "", &dirty)
+		}
+		law := ""
+		if len(dirty) > 0 {
+			law = "\nLAW no_hidden_content class=" + c08HiddenClass + ": " + strings.Join(dirty, ", ")
+		}
+		return cls == ClsPanic || len(dirty) > 0, fmt.Sprintf("class=%s msg=%q after=%s%s", cls, msg, docString(doc), law), nil
 	}
 	if t == nil {
 		return false, "", fmt.Errorf("replay file has neither a build tree nor a filter case")
